@@ -314,7 +314,7 @@ SEEDS = ['ab', 'abc', 'abcd', 'a_b', 'a__b', 'ab_', 'ab__', 'q', 'w', 'zz', 'val
 	'quite_a_long_identifier_that_goes_on_and_on_for_a_while_x', 'quite_a_long_identifier_that_goes_on_and_on_for_a_while_xy']
 CLASS_SEEDS = ['Ab', 'Abc', 'Abcd', 'A_b', 'A__b', 'Q', 'Qq', 'Node', 'Nodes', 'NodeX', 'Box', 'Boxed', 'Unit', 'Units', 'Shape', 'Shapes',
 	'Item', 'ItemZ', 'Acc', 'Accum', 'Kind', 'Kinds', 'Tree', 'Trees', 'Left', 'LeftMost', 'Cell', 'Cells', 'Cell_', 'Cell__2']
-RESERVED_STEMS = ['self', 'cls', 'super', 'init', '__init__', 'len', 'print', 'int', 'float', 'bool', 'str', 'list', 'dict', 'range', 'enumerate', 'type', 'object',
+RESERVED_STEMS = ['self', 'cls', 'super', 'init', '__init__', 'len', 'print', 'int', 'float', 'bool', 'const', 'const', 'str', 'list', 'dict', 'range', 'enumerate', 'type', 'object',
 	'None', 'Enum', 'lambda', 'class', 'def', 'new', 'delete', 'this', 'std', 'auto', 'template', 'operator', 'Empty', 'Unknown', 'if', 'for',
 	'func_call', 'function', 'closure', 'method', 'block', 'var', 'name', 'items', 'keys', 'values', 'append', 'pop', 'get', 'copy', 'raw', 'on', 'ref', 'addr']
 
@@ -839,7 +839,13 @@ class NestGen:
 			# forward references as string annotations now and then
 			c = self.class_by_name(t)
 			return f"'{t}'" if c is not None and (owner is not None and (c is owner or r.random() < 0.3)) else t
-		sigtxt = ', '.join([*first, *[f'{n}: {ann(t)}' for n, t in params]])
+		def pann(t: str) -> str:
+			# now and then an immutable parameter: `const T&` in C++ (decided by the view helper on the rendered type text)
+			if self.class_by_name(t) is not None and r.random() < 0.35:
+				self.count('param:annotated-immutable')
+				return f'Annotated[{ann(t)}, Embed.immutable]'
+			return ann(t)
+		sigtxt = ', '.join([*first, *[f'{n}: {pann(t)}' for n, t in params]])
 		lines.append(f'{pad}def {name}({sigtxt}) -> {ann(ret)}:')
 		env = list(params)
 		if kind in ('method', 'property') and owner is not None:
@@ -955,7 +961,7 @@ class NestGen:
 
 	def program(self) -> str:
 		r = self.rng
-		lines = ['from typing import ClassVar', 'from enum import Enum', 'from collections.abc import Callable', 'from rogw.tranp.compatible.python.embed import Embed', '']
+		lines = ['from typing import Annotated, ClassVar', 'from enum import Enum', 'from collections.abc import Callable', 'from rogw.tranp.compatible.python.embed import Embed', '']
 		if r.random() < 0.65:
 			en = self.names.cls()
 			members = [self.names.cls() for _ in range(r.randint(2, 4))]
